@@ -51,7 +51,7 @@ PROPS = {
                 GEN + "profile varw: writes from node functions and handlers, several readers; non-trivial = distinct history in which node functions ran"),
     "C10": spec(["IncrVerif.Props.C10", "IncrVerif.Props.C10History"], [("life", 0.6), ("subs", 0.4)], ["api", "read", "ev"],
                 GEN + "profile life: observer-API heavy; non-trivial = distinct history with observer reads"),
-    "C11": spec(["IncrVerif.Props.C11Heap", "IncrVerif.Props.C05", "IncrVerif.Props.C01History"], [("general", 0.3), ("bind", 0.3), ("expert", 0.2), ("subs", 0.2)],
+    "C11": spec(["IncrVerif.Props.C11Heap", "IncrVerif.Props.C05", "IncrVerif.Props.C01History", "IncrVerif.Props.C11Full"], [("general", 0.3), ("bind", 0.3), ("expert", 0.2), ("subs", 0.2)],
                 ["snap", "heap", "stats", "audit"],
                 GEN + "the model's full snapshot (heights, timestamps, validity, necessity, ordered parent lists with child indices, children, "
                 "handler counts, heap buckets in order, counters) is compared with verif_snapshot() after EVERY action, and verif_audit() "
@@ -73,7 +73,7 @@ PROPS = {
                 "or two binds, stabilise called from a node function and from a handler; every history ends by dropping every handle and the state; "
                 "both build profiles; non-trivial = distinct history in which node functions ran or a panic was produced",
                 builds=("debug", "release"), require_wf=False, nq=200),
-    "C12": spec(["IncrVerif.Props.C12"], [("memo", 0.3), ("bind", 0.25), ("general", 0.2), ("perkey", 0.15), ("expert", 0.1)],
+    "C12": spec(["IncrVerif.Props.C12", "IncrVerif.Props.C12History"], [("memo", 0.3), ("bind", 0.25), ("general", 0.2), ("perkey", 0.15), ("expert", 0.1)],
                 ["api", "snap", "read"],
                 GEN + "every history of these profiles also drops handles (drophandle on top-level results incl. memoised nodes, dropobs, dropvar) and "
                 "profiles memo/maps/perkey/limits end with dropping EVERY handle and the state; both sides list the nodes still allocated after every "
